@@ -2372,9 +2372,12 @@ def _factorize_multiple(
             if expect is None and is_duck_dask_array(by_):
                 raise ValueError("Please provide expected_groups when grouping by a dask array.")
 
+        def _found(by_):
+            uniq = pd.Index(pd.unique(by_.reshape(-1))).dropna()
+            return uniq.sort_values() if sort else uniq
+
         found_groups = tuple(
-            pd.Index(pd.unique(by_.reshape(-1))) if expect is None else expect
-            for by_, expect in zip(by, expected_groups)
+            _found(by_) if expect is None else expect for by_, expect in zip(by, expected_groups)
         )
         grp_shape = tuple(map(len, found_groups))
 
@@ -2387,7 +2390,7 @@ def _factorize_multiple(
                 meta=np.array((), dtype=np.int64),
                 **kwargs,
             )
-            for by_, expect_ in zip(by_chunked, expected_groups)
+            for by_, expect_ in zip(by_chunked, found_groups)
         ]
         # This could be avoied but we'd use `np.where`
         # instead `_ravel_factorized` instead i.e. a copy.
